@@ -1787,7 +1787,7 @@ template <typename Reader, typename Handler>
 template <typename ItemInfo>
 void NLReader<Reader, Handler>::ReadSuffix(int info) {
   int num_items = ItemInfo(*this).num_items();
-  int num_values = ReadUInt(1, num_items + 1);
+  int num_values = ReadUInt(1, num_items + 1u);
   fmt::StringRef name = reader_.ReadName();
   reader_.ReadTillEndOfLine();
   suf::Kind kind = static_cast<suf::Kind>(info & internal::SUFFIX_KIND_MASK);
